@@ -84,6 +84,7 @@ type block struct {
 	op      *opDef
 	slot    int    // slot holding the aliased operand
 	slot2   int    // second slot holding the same window (-1: none)
+	idSlot  int    // slot that additionally holds the receiver itself (-1: none)
 	same    bool   // the aliased operand is the receiver itself
 	t       bool   // aliased operand transposed
 	v, free int    // scalar variant and free shape parameter
@@ -238,11 +239,11 @@ func (pl *plan) addBlocks(op *opDef, rk string, recvs []Win, dims [][2]int, free
 					okKind = false // TTri() of the receiver has the other kind
 				}
 				if okKind {
-					pl.push(block{op: op, slot: p, slot2: -1, same: true, t: t, v: v, free: free, fk: fk, dims: dims, recvs: recvs})
+					pl.push(block{op: op, slot: p, slot2: -1, idSlot: -1, same: true, t: t, v: v, free: free, fk: fk, dims: dims, recvs: recvs})
 					// identity in two slots at once (a.Mul(a, a))
 					for q := p + 1; q < len(dims); q++ {
 						if op.Slots[q] == st && dims[q] == dims[p] && !t && freshOK(p, q) {
-							pl.push(block{op: op, slot: p, slot2: q, same: true, t: t, v: v, free: free, fk: fk, dims: dims, recvs: recvs})
+							pl.push(block{op: op, slot: p, slot2: q, idSlot: -1, same: true, t: t, v: v, free: free, fk: fk, dims: dims, recvs: recvs})
 						}
 					}
 				}
@@ -268,11 +269,26 @@ func (pl *plan) addBlocks(op *opDef, rk string, recvs []Win, dims [][2]int, free
 				if len(aliases) == 0 || !freshOK(p, -1) {
 					continue
 				}
-				pl.push(block{op: op, slot: p, slot2: -1, t: t, v: v, free: free, fk: fk, dims: dims, recvs: recvs, aliases: aliases})
+				pl.push(block{op: op, slot: p, slot2: -1, idSlot: -1, t: t, v: v, free: free, fk: fk, dims: dims, recvs: recvs, aliases: aliases})
 				if !t && fk == "D" {
 					for q := p + 1; q < len(dims); q++ {
 						if op.Slots[q] == st && dims[q] == dims[p] && freshOK(p, q) {
-							pl.push(block{op: op, slot: p, slot2: q, t: t, v: v, free: free, fk: fk, dims: dims, recvs: recvs, aliases: aliases})
+							pl.push(block{op: op, slot: p, slot2: q, idSlot: -1, t: t, v: v, free: free, fk: fk, dims: dims, recvs: recvs, aliases: aliases})
+						}
+					}
+				}
+				// the receiver itself in another slot next to the aliased window
+				if withSame && fk == "D" && !op.NoSame {
+					for q := range dims {
+						if q == p || dims[q] != [2]int{rr, rc} || !freshOK(p, q) {
+							continue
+						}
+						okKind := false
+						for _, k := range slotKinds(op.Slots[q]) {
+							okKind = okKind || k == rk
+						}
+						if okKind {
+							pl.push(block{op: op, slot: p, slot2: -1, idSlot: q, t: t, v: v, free: free, fk: fk, dims: dims, recvs: recvs, aliases: aliases})
 						}
 					}
 				}
@@ -296,6 +312,8 @@ func (pl *plan) gen(i int) Case {
 	c := Case{Op: b.op.Name, L: pl.sp.L, Recv: recv, Var: b.v, Seed: uint64(i)*0x9e3779b97f4a7c15 + 1}
 	for s := range b.dims {
 		switch {
+		case s == b.idSlot:
+			c.Args = append(c.Args, Arg{Same: true, W: recv})
 		case s == b.slot || s == b.slot2:
 			if b.same {
 				c.Args = append(c.Args, Arg{Same: true, T: b.t, W: recv})
@@ -336,11 +354,26 @@ func sameParentSpace(P int) *space {
 	return sp
 }
 
+// subName is the single sub-check name used by every part of the check, so
+// that a defect recorded in known_findings.jsonl has one key regardless of the
+// part (exhaustive geometry or sampling) that runs into it. The parts are told
+// apart in the evidence by vk.Extra counters and by the sample labels.
+const subName = "alias"
+
+func enumerate(t *testing.T, part string, pl *plan) {
+	s, n := vk.Shard()
+	cnt := 0
+	for i := s; i < pl.total; i += n {
+		cnt++
+	}
+	vk.Extra("cases:"+part, int64(cnt))
+	vk.Extra("blocks:"+part, int64(len(pl.blocks)))
+	vk.Enumerate(t, subName, pl.total, pl.gen, runCase(part))
+}
+
 func TestSameParent(t *testing.T) {
 	sp := sameParentSpace(vk.Pick(4, 6))
-	pl := buildPlan(sp, allOps, true)
-	vk.Extra("same-parent-blocks", int64(len(pl.blocks)))
-	vk.Enumerate(t, "same-parent", pl.total, pl.gen, runCase("same-parent"))
+	enumerate(t, "same-parent", buildPlan(sp, allOps, true))
 }
 
 // vectorSpace: every (offset, n<=5, inc<=4) inside a 24-element array, built
@@ -375,8 +408,7 @@ func vectorSpace() *space {
 
 func TestVectors(t *testing.T) {
 	sp := vectorSpace()
-	pl := buildPlan(sp, func(o *opDef) bool { return o.Recv == 'V' }, true)
-	vk.Enumerate(t, "vectors", pl.total, pl.gen, runCase("vectors"))
+	enumerate(t, "vectors", buildPlan(sp, func(o *opDef) bool { return o.Recv == 'V' }, true))
 }
 
 // mixedSpace: receivers are views of the P x P parent, operands are views of
@@ -436,6 +468,5 @@ func mixedSpace(P int) *space {
 
 func TestMixedStride(t *testing.T) {
 	sp := mixedSpace(vk.Pick(4, 6))
-	pl := buildPlan(sp, allOps, false)
-	vk.Enumerate(t, "mixed-stride", pl.total, pl.gen, runCase("mixed-stride"))
+	enumerate(t, "mixed-stride", buildPlan(sp, allOps, false))
 }
